@@ -142,6 +142,8 @@ class Prover:
         elif r == z3.sat:
             verdict = 'sat'
             model = s.model()
+        elif getattr(self, 'failfast', None) and os.path.exists(self.failfast):
+            verdict, backend = 'unknown', None
         else:
             verdict, backend = cli_solve(s.to_smt2(), self.cli_timeout_s)
             if verdict == 'sat':       # a model is needed for replay: give z3 one more, longer, try
@@ -153,6 +155,43 @@ class Prover:
             self.stats[backend] = self.stats.get(backend, 0) + 1
         self.cache[key] = (verdict, model, conds, goal)   # keep the terms alive so ids stay unique
         return verdict, backend, model
+
+
+_qf_cache = {}
+
+
+def _has_quantifier(e):
+    k = e.get_id()
+    r = _qf_cache.get(k)
+    if r is None:
+        todo, seen, r = [e], set(), False
+        while todo:
+            x = todo.pop()
+            if x.get_id() in seen:
+                continue
+            seen.add(x.get_id())
+            if z3.is_quantifier(x):
+                r = True
+                break
+            todo.extend(x.children())
+        if len(_qf_cache) > 200000:
+            _qf_cache.clear()
+        _qf_cache[k] = r
+    return r
+
+
+def branch_feasible(conds, p):
+    """may the branch that negates conds[p] (after conds[:p]) be taken?  False only when z3 refutes it using the quantifier-free part of the path condition"""
+    try:
+        s = z3.Solver()
+        s.set('timeout', 300)
+        for c in conds[:p]:
+            if isinstance(c, z3.ExprRef) and not _has_quantifier(c):
+                s.add(c)
+        s.add(z3.Not(conds[p]))
+        return s.check() != z3.unsat
+    except Exception:
+        return True
 
 
 def explore(task):
@@ -171,6 +210,7 @@ def _explore(task):
     unit = mod.UNITS[task['unit']]
     shape = unit.shapes(task['tier'])[task['shape_i']]
     prover = Prover(getattr(unit, 'z3_timeout_ms', None) or task['timeout_ms'], task['cli_timeout_s'])
+    prover.failfast = task.get('failfast')
     res = {'paths': 0, 'obligations': 0, 'discharged': 0, 'failures': [], 'undecided': [], 'covers': set(), 'canary_ok': [], 'canary_bad': [],
            'samples': [], 'outcomes': {}, 'split': None, 'cut': 0}
     todo = [list(task['prefix'])]
@@ -185,7 +225,13 @@ def _explore(task):
         if ex is None:
             continue
         if not task.get('exact'):
+            pos = getattr(ex, 'dec_pos', None)
             for j in range(n0, len(ex.dec)):
+                # the sibling branch of decision j: skipped when its path condition is already unsatisfiable without the quantified assumptions (a subset of the
+                # assumptions being unsatisfiable makes every obligation below it vacuous); `unknown` or no position information -> explored as before
+                if pos is not None and j < len(pos) and len(pos) == len(ex.dec) and not branch_feasible(ex.conds, pos[j]):
+                    res['pruned'] = res.get('pruned', 0) + 1
+                    continue
                 todo.append(ex.dec[:j] + [False])
         res['paths'] += 1
         oc = str(getattr(ex, 'outcome', ''))[:24]
@@ -217,6 +263,11 @@ def _explore(task):
                                            'goal': str(f)[:300], 'backend': backend})
             elif verdict == 'sat':
                 failed_names[key] = failed_names.get(key, 0) + 1
+                if task.get('failfast'):
+                    try:
+                        open(task['failfast'], 'w').close()
+                    except OSError:
+                        pass
                 mv = getattr(ex, 'model_vars', {})
                 vals = {k: model_value(model, v) if isinstance(v, z3.ExprRef) else jsonable(v) for k, v in mv.items()} if model is not None else None
                 res['failures'].append({'obligation': name, 'shape': repr(shape), 'shape_i': task['shape_i'], 'unit': task['unit'], 'decisions': list(ex.dec),
@@ -279,6 +330,9 @@ def match_known(failure, known):
 
 def run_units(modname, tier, pool, mutation=None, only_units=None, budget_s=None):
     mod = _load_units(modname)
+    # once some obligation has a counterexample the verdict of this run is "violation": the slow fall-back provers are then skipped for queries the in-process z3
+    # leaves open (they stay undecided); the flag file is how the workers learn about it
+    failfast = os.path.join(tempfile.gettempdir(), f'pyvc-failfast-{os.getpid()}-{time.time_ns()}')
     timeout_ms = int(os.environ.get('VERIF_Z3_MS', 10000 if tier == 'quick' else 60000))
     cli_to = float(os.environ.get('VERIF_CLI_S', 20 if tier == 'quick' else 60))
     agg = {'paths': 0, 'obligations': 0, 'discharged': 0, 'failures': [], 'undecided': [], 'covers': {}, 'canary_ok': [], 'canary_bad': [],
@@ -289,7 +343,7 @@ def run_units(modname, tier, pool, mutation=None, only_units=None, budget_s=None
             continue
         for si, _ in enumerate(unit.shapes(tier)):
             pending.append({'module': modname, 'unit': ui, 'shape_i': si, 'prefix': [], 'tier': tier, 'timeout_ms': timeout_ms, 'cli_timeout_s': cli_to,
-                            'mutation': mutation, 'split_after': 40})
+                            'mutation': mutation, 'split_after': 40, 'failfast': failfast})
     t0 = time.time()
     inflight = []
     while pending or inflight:
@@ -335,6 +389,10 @@ def run_units(modname, tier, pool, mutation=None, only_units=None, budget_s=None
             break
         if mutation is not None and agg['failures']:
             break      # a mutant only has to fail one obligation
+    try:
+        os.unlink(failfast)
+    except OSError:
+        pass
     return agg
 
 
@@ -511,18 +569,36 @@ def _main(mod, modname, prop, a, seed, pool, t0):
 
 
 def scan_assumptions(mod):
-    """mechanical scan of the contract module for assume( / trusted / external markers (DESIGN 3.7)"""
+    """mechanical scan of the contract module AND of the shared contract modules it imports for assume( / trusted / external markers, loop-frame waivers and callees
+    replaced by contracts (DESIGN 3.7)"""
     out = []
-    try:
-        src = open(mod.__file__).read()
-    except OSError:
-        return out
-    n_assume = len(re.findall(r'\.assume\(', src))
-    if n_assume:
-        out.append(f'assumption scan: {n_assume} ex.assume(...) call sites in {os.path.basename(mod.__file__)} (environment/library contracts and havoc-then-assume of loop invariants)')
-    for m in re.finditer(r'#\s*(TRUSTED|ASSUMED|EXTERNAL):\s*(.+)', src):
-        out.append(f'{m.group(1).lower()}: {m.group(2).strip()}')
-    return out
+    mods, todo, seen = [], [mod], set()
+    while todo:
+        m = todo.pop()
+        if m.__name__ in seen:
+            continue
+        seen.add(m.__name__)
+        mods.append(m)
+        for v in list(vars(m).values()):
+            mm = sys.modules.get(getattr(v, '__module__', None) or '') if not isinstance(v, type(sys)) else v
+            if mm is not None and getattr(mm, '__name__', '').startswith('contracts.') and mm.__name__ not in seen:
+                todo.append(mm)
+    for m in mods:
+        try:
+            src = open(m.__file__).read()
+        except (OSError, AttributeError):
+            continue
+        base = os.path.basename(m.__file__)
+        n_assume = len(re.findall(r'\.assume\(', src))
+        if n_assume:
+            out.append(f'assumption scan: {n_assume} ex.assume(...) call sites in {base} (preconditions, environment/library contracts and havoc-then-assume of loop invariants)')
+        for mt in re.finditer(r'#\s*(TRUSTED|ASSUMED|EXTERNAL):\s*(.+)', src):
+            out.append(f'{mt.group(1).lower()} ({base}): {mt.group(2).strip()}')
+        for mt in re.finditer(r'^\s*(heap_keeps|keeps|HK)\s*=\s*(.+)$', src, re.M):
+            out.append(f'loop-frame waiver ({base}): {mt.group(1)} = {mt.group(2).strip()[:160]}')
+        for mt in re.finditer(r"ex\.contracts\[\((.+?)\)\]", src):
+            out.append(f'callee used by contract instead of its body ({base}): {mt.group(1)}')
+    return sorted(set(out))
 
 
 def replay_file(mod, modname, path):
